@@ -73,11 +73,13 @@ func (l *lexer) peek(n int) rune {
 func isNameStart(c rune) bool {
 	return (c >= 'a' && c <= 'z') || (c >= 'A' && c <= 'Z') || c == '_' || c >= 0x80
 }
-func isDigit(c rune) bool   { return c >= '0' && c <= '9' }
-func isName(c rune) bool    { return isNameStart(c) || isDigit(c) || c == '-' }
-func isHex(c rune) bool     { return isDigit(c) || (c >= 'a' && c <= 'f') || (c >= 'A' && c <= 'F') }
-func isWS(c rune) bool      { return c == ' ' || c == '\t' || c == '\n' }
-func isNonPrint(c rune) bool { return (c >= 0 && c <= 8) || c == 0x0B || (c >= 0x0E && c <= 0x1F) || c == 0x7F }
+func isDigit(c rune) bool { return c >= '0' && c <= '9' }
+func isName(c rune) bool  { return isNameStart(c) || isDigit(c) || c == '-' }
+func isHex(c rune) bool   { return isDigit(c) || (c >= 'a' && c <= 'f') || (c >= 'A' && c <= 'F') }
+func isWS(c rune) bool    { return c == ' ' || c == '\t' || c == '\n' }
+func isNonPrint(c rune) bool {
+	return (c >= 0 && c <= 8) || c == 0x0B || (c >= 0x0E && c <= 0x1F) || c == 0x7F
+}
 
 func validEscape(a, b rune) bool { return a == '\\' && b != '\n' && b != -1 }
 
@@ -452,7 +454,7 @@ type Sheet struct {
 	Rules []Rule
 	// AtRules counts top-level at-rules; Junk counts top-level parse errors (a prelude without block).
 	AtRules, Junk int
-	Tokens       []Token
+	Tokens        []Token
 }
 
 var closer = map[Kind]Kind{LBrace: RBrace, LParen: RParen, LBracket: RBracket, Function: RParen}
